@@ -252,16 +252,18 @@ def gen_all(ctx):
     n_x = ctx.scale(60, 600)
     for k in range(n_x):
         n = rng.choice([0, 1, 2, 3, 5, 8]); op = rng.choice(["xnorm", "xinner"])
+        small = rng.random() < 0.3        # entries of magnitude 2^-30 .. 2^-46 (regression: norm must not drop them)
         def xv():
             out = []
             for _ in range(n):
                 r = rng.random()
-                out.append("nan" if r < 0.18 else nums.tok_num(Fraction(rng.randint(-5, 5), rng.choice([1, 2, 4]))))
+                sc = 2 ** rng.randint(30, 46) if small else rng.choice([1, 2, 4])
+                out.append("nan" if r < 0.18 else nums.tok_num(Fraction(rng.randint(-5, 5), sc)))
             return out
         u = xv(); v = xv() if op == "xinner" else []
         P = rng.choice((0,) + PROCS); sizes = rand_parts(rng, n, P) if P else []
         c = cid()
-        xcases.append(dict(cid=c, op=op, n=n, u=u, v=v, P=P, sizes=sizes,
+        xcases.append(dict(cid=c, op=op, n=n, u=u, v=v, P=P, sizes=sizes, small=small,
                            line=" ".join([c, op, str(n)] + u + v + [str(P)] + [str(s) for s in sizes])))
     return cases, xcases
 
@@ -388,6 +390,10 @@ def oracle(ctx, c, I):
         nb = math.sqrt(binner) if binner > 0 else 0.0
         tolp = tol * nb if nb > ZT else tol
         rz = I.PL[3]
+        if its == 0 and lim >= 1 and not (abs(res[0] ** 2 - rz) <= 1e-6 * abs(rz) + 1e-9 * max(res[0] ** 2, binner, 1e-300)):
+            # nothing reported after the initial residual although the iterate moved
+            ctx.signal("O", sb + ":true_residual", "only the initial residual is reported (<r0,z0> = %.17g) but the returned iterate "
+                       "has <r,z> = %.17g" % (res[0] ** 2, rz), case=c.line)
         if its >= 1 and binner > 0:
             rep = res[-1] * binner
             sc2 = max(res[0] ** 2, binner, 1e-300)
@@ -535,6 +541,7 @@ def judge_x(ctx, xc, ri, rm):
     vals = [t for seg in split_ranks(N) for t in seg] if xc["P"] else N
     has_nan = "nan" in xc["u"] or "nan" in xc["v"]
     ctx.count("xval_nan" if has_nan else "xval_finite")
+    if xc.get("small"): ctx.count("xval_small_magnitude")
     if has_nan: ctx.nontrivial.add(xc["line"].split(" ", 1)[1])
     iv = [nums.parse_num(t) for t in vals]
     # O: non-finite whenever an entry is; all ranks agree; finite value = the assembled vector's
@@ -545,7 +552,7 @@ def judge_x(ctx, xc, ri, rm):
         want = sum(a * b_ for a, b_ in zip(u, v))
         for got in iv:
             g = got if isinstance(got, str) else (got * got if xc["op"] == "xnorm" else got)
-            if isinstance(g, str) or not nums.close(g, want, 1e-12, 1e-15):
+            if isinstance(g, str) or not nums.close(g, want, 1e-12, 0):
                 ctx.signal("O", sb + ":value", "result %s, assembled vector gives %s" % (g, want), case=xc["line"]); break
     # K
     if Nm is None:
@@ -554,7 +561,7 @@ def judge_x(ctx, xc, ri, rm):
     m = nums.parse_num(Nm[0])
     for got in iv:
         g = got if isinstance(got, str) else (got * got if xc["op"] == "xnorm" else got)
-        if isinstance(m, str) != isinstance(g, str) or (not isinstance(m, str) and not nums.close(g, m, 1e-12, 1e-15)):
+        if isinstance(m, str) != isinstance(g, str) or (not isinstance(m, str) and not nums.close(g, m, 1e-12, 0)):
             ctx.signal("K", sb, "implementation %s, model %s" % (g, m), case=xc["line"]); break
 
 
